@@ -228,6 +228,12 @@ func (s *Sys) execX(op []string, note func(string, ...any)) string {
 			s.minRequired = c
 		}
 		if len(op) > 2 && op[2] == "nowait" {
+			if n > s.latest && n > s.raceBound {
+				// a bound beyond the latest version, and the pruners run while the history goes on:
+				// whether they see the checkpoints written in the meantime is a matter of
+				// scheduling ("the last checkpoint not after n" moves while they run)
+				s.raceBound = n
+			}
 			return "ok"
 		}
 		return s.h.waitPrunes()
@@ -250,10 +256,29 @@ func (s *Sys) execX(op []string, note func(string, ...any)) string {
 		s.h = nil
 		vers, cps, err := rootRows(s.cur)
 		note("root rows: %v checkpoints: %v err=%v; required >= %d", vers, cps, err, s.minRequired)
+		// versions between the bound computed when an asynchronous deletion beyond the latest
+		// version was requested and the last checkpoint not after its bound NOW: the pruners may
+		// or may not have reached them (both outcomes satisfy the property; a false alarm of this
+		// oracle, which demanded the call-time bound, was corrected here)
+		optionalBelow := s.minRequired
+		for _, cp := range cps {
+			if cp <= s.raceBound && cp > optionalBelow {
+				optionalBelow = cp
+			}
+		}
 		var bad, extra []string
 		for v := int64(1); v <= s.latest; v++ {
 			res := s.loadAndCheck(s.cur, v, op[0] == "loadcontents")
 			required := v >= s.minRequired || v == s.latest
+			if required && v != s.latest && v < optionalBelow {
+				if res != "ok" && !strings.HasPrefix(res, "load-err") && !strings.HasPrefix(res, "panic") && !onlyErrors(res) {
+					bad = append(bad, fmt.Sprintf("v%d(optional):%s", v, res))
+				}
+				if res != "ok" {
+					note("v%d given up by the deletion that ran while the history went on: %s", v, res)
+				}
+				continue
+			}
 			if required && res != "ok" {
 				bad = append(bad, fmt.Sprintf("v%d:%s", v, res))
 			}
@@ -508,4 +533,15 @@ func (s *Sys) exportFrom(t *v2.Tree, v int64, ord v2.TraverseOrderType, note fun
 		return clip(strings.Join(bad, "|"))
 	}
 	return "ok"
+}
+
+// onlyErrors: every part of a contents check (";"-separated) reports an error or a panic - the
+// version is partly gone and says so - none reports a wrong value.
+func onlyErrors(res string) bool {
+	for _, p := range strings.Split(res, ";") {
+		if !strings.HasSuffix(p, ":err") && !strings.Contains(p, "panic") {
+			return false
+		}
+	}
+	return true
 }
